@@ -5230,9 +5230,19 @@ impl M2Model {
             header.playable_animation_lookup = None;
         }
 
-        // Clear post-BC optional fields we don't serialize
-        header.blend_map_overrides = None;
-        header.texture_combiner_combos = None;
+        // The optional header arrays announced by the global flags are not carried by the
+        // model, but their (count, offset) slots belong to the header as long as the flags
+        // are set: readers expect them right after particle_emitters. Write them empty.
+        header.blend_map_overrides = if self.has_blend_map_overrides_slot() {
+            Some(M2Array::new(0, 0))
+        } else {
+            None
+        };
+        header.texture_combiner_combos = if self.has_texture_combiner_combos_slot() {
+            Some(M2Array::new(0, 0))
+        } else {
+            None
+        };
         header.texture_transforms = None;
 
         // Suppress unused variable warning
@@ -5309,8 +5319,8 @@ impl M2Model {
     /// Calculate the size of the header for this model version
     ///
     /// This must match exactly what M2Header::write() produces. The write() method
-    /// clears optional fields (blend_map_overrides, texture_combiner_combos, texture_transforms)
-    /// so we don't include them in the size calculation.
+    /// emits the flag-controlled optional fields (blend_map_overrides,
+    /// texture_combiner_combos) as empty arrays and clears texture_transforms.
     fn calculate_header_size(&self) -> usize {
         let version = self.header.version().unwrap_or(M2Version::Vanilla);
 
@@ -5385,10 +5395,30 @@ impl M2Model {
         size += 2 * 4; // ribbon_emitters
         size += 2 * 4; // particle_emitters
 
-        // Note: Optional fields (blend_map_overrides, texture_combiner_combos, texture_transforms)
-        // are NOT included because write() always clears them to None before writing the header.
+        // Optional fields announced by the global flags (same conditions as M2Header::parse)
+        if self.has_blend_map_overrides_slot() {
+            size += 2 * 4; // blend_map_overrides
+        }
+        if self.has_texture_combiner_combos_slot() {
+            size += 2 * 4; // texture_combiner_combos
+        }
+
+        // Note: texture_transforms is NOT included because write() always clears it to None
+        // before writing the header.
 
         size
+    }
+
+    /// Whether the header has a blend_map_overrides slot (same condition as M2Header::parse)
+    fn has_blend_map_overrides_slot(&self) -> bool {
+        self.header.version >= 260 && (self.header.flags.bits() & 0x8000000 != 0)
+    }
+
+    /// Whether the header has a texture_combiner_combos slot (same condition as M2Header::parse)
+    fn has_texture_combiner_combos_slot(&self) -> bool {
+        self.header
+            .flags
+            .contains(M2ModelFlags::USE_TEXTURE_COMBINERS)
     }
 
     /// Validate the model structure
